@@ -210,5 +210,7 @@ def near_rule(ctx: Ctx, fi) -> None:
 
 
 def _extra(ctx):
+    from ..engines.typestate import check_wrappers
+    check_wrappers(ctx, ['quantise'])
     from ..engines.structure import argmin_rule
     argmin_rule(ctx)
